@@ -85,6 +85,9 @@ func Run(cfg hx.Config) error {
 	h.sectionPipeline()
 	h.sectionRhel()
 	h.sectionFull()
+	h.sectionHistory()
+	h.sectionInterleave()
+	h.sectionHistOps()
 	h.sectionKnown()
 	return nil
 }
